@@ -67,9 +67,13 @@ def run_case(spec):
     # ---- hostile values
     use_hostile = rng.random() < 0.7
 
+    one_shot = []
+
     def hostile(r):
         v = faults.hostile_value(r)
         fired["hostile"] += 1
+        if type(v).__name__ == "generator":
+            one_shot.append(v)
         res["sets"]["hostile_value_types"].append(type(v).__name__)
         return v
 
@@ -182,6 +186,12 @@ def run_case(spec):
     c["faults_fired"] = dict(fired)
     c["file_destination_encode_failures"] = file_failures["n"]
     relevant = [v for v in it.violations if "current_action" not in v["msg"]]
+    # "or alters the application": a one-shot iterator the application logged is still unconsumed afterwards
+    for gobj in one_shot:
+        rest = list(gobj)
+        c["one_shot_iterators_checked"] = c.get("one_shot_iterators_checked", 0) + 1
+        if rest != [1, 2, 3]:
+            relevant.append({"msg": "logging consumed a generator the application passed as a field value (left: %r)" % (rest,)})
     if any(fired.values()):
         sig = sorted(set(res["sets"]["fault_x_message_kind"]))
         res["nontrivial"].append(h([sig, gen.prog_shape(prog), sorted(regs.items())]))
